@@ -304,6 +304,9 @@ class C12Monitor(explore.Monitor):
 
   def classify(self, clause, detail, bundle, history):
     if detail.get("root"): return detail["root"]
+    if any(c == "group" for (c, _t) in detail.get("group_by", [])):
+      # a SOURCE column whose id is `group` - the id every summary table reserves for its helper
+      return "group-by-column-named-group"
     kinds = sorted({(t or "?").split(":")[0] for (_c, t) in detail.get("group_by", [])})
     acts = sorted({a[0] for a in bundle}) if bundle else []
     return "%s:[%s] after %s" % (clause.split(".", 1)[1], ",".join(kinds), "+".join(acts))
